@@ -1494,9 +1494,14 @@ namespace ipr {
       void visit(const Forall& t) final
       { pp << xpr_type_expr(t); }
 
+      void visit(const Decltype& t) final
+      { pp << xpr_type_expr(t); }
+
       void visit(const Type& t) final
       {
-         // FIXME: Check.
+         // A composite type is named by its own type-id: there is no other way to spell it.
+         if (auto id = util::view<Type_id>(t.name()); id != nullptr and physically_same(id->type_expr(), t))
+            Missing_overrider{ }(t);
          pp << xpr_name(t.name());
       }
 
